@@ -303,6 +303,36 @@ func (c *Ctx) genC16() {
 			c.sessionCase(s, &t, &[2]string{"groups", "staff"}, now, "clock+gate")
 		}
 		now := t0.Add(time.Minute)
+		// a session that was handed to the application keeps the attributes of the assertion that created it, whatever the
+		// codec decodes afterwards (another user's session; a forged token that is rejected): decode A, decode others, read A
+		{
+			saml.TimeNow = func() time.Time { return now }
+			jwt.TimeFunc = func() time.Time { return now }
+			codec := s.mw.Session.(samlsp.CookieSessionProvider).Codec
+			a := base
+			a.Attrs = map[string][]string{"uid": {"alice"}, "groups": {"staff"}}
+			b := base
+			b.Sub, b.Attrs = "bob", map[string][]string{"uid": {"bob"}, "groups": {"admin"}, "extra": {"x"}}
+			ta, tb := c.sign(s.alg, a, s.keyName), c.sign(s.alg, b, s.keyName)
+			forgedRaw := tb.raw[:len(tb.raw)-3] + "AAA" // bob's claims under a signature that does not verify
+			orc, res := "", "ok"
+			for round := 0; round < 8 && orc == ""; round++ {
+				sa, err := codec.Decode(ta.raw)
+				if err != nil {
+					res = "err"
+					break
+				}
+				for _, other := range []string{tb.raw, forgedRaw, "not.a.token"} {
+					_, _ = codec.Decode(other)
+					got := sa.(samlsp.SessionWithAttributes).GetAttributes()
+					if fmt.Sprint(got["groups"]) != "[staff]" || fmt.Sprint(got["uid"]) != "[alice]" || len(got["extra"]) != 0 {
+						orc = fmt.Sprintf("key=session-attributes-changed-after-decode a decoded session's attributes changed after the codec decoded another token: groups=%v uid=%v extra=%v", got["groups"], got["uid"], got["extra"])
+					}
+				}
+			}
+			c.count("c16-decoded-session-stability", s.keyName)
+			c.emitOneWay("sessionstability", []string{encStr(s.keyName)}, res, orc)
+		}
 		// gates
 		for _, g := range [][2]string{{"groups", "admin"}, {"groups", "nobody"}, {"missing", "x"}, {"uid", "alice"}, {"uid", "Alice"}, {"groups", "adm"}, {"SessionIndex", "idx1"}, {"", ""}} {
 			t := c.sign(s.alg, base, s.keyName)
